@@ -251,7 +251,12 @@ impl Sim {
                     ev.op,
                     Op::CreatePair { .. } | Op::AddNativeDecimals { .. } | Op::MigratePair { .. } | Op::Raw { .. }
                 ) {
-                    crate::orc_factory::audit_registry(self, ev.seq, cov);
+                    // the audit is O(pairs): on very large registries run it on every tenth creation
+                    // (and on every decimals update / migration / raw message)
+                    let n = self.model.pairs.len();
+                    if n <= 40 || n % 10 == 0 || !matches!(ev.op, Op::CreatePair { .. }) {
+                        crate::orc_factory::audit_registry(self, ev.seq, cov);
+                    }
                 }
             }
         }
